@@ -200,3 +200,90 @@ def judge_lines(want, got):
         if w != g:
             bad.append((k, w.split()[0], w, g))
     return bad
+
+
+HASHMAP_SIZES = [0, 1, 2, 7, 8, 9, 11, 12, 13, 14, 15, 16, 17, 24, 25, 31, 32, 33, 48, 49, 63, 64, 65, 100, 200, 500]
+
+
+def hashmap_tables(shadow_driven=False):
+    """[(name, text, expected, n_cells, labels)]: HashMap<string,int> and HashMap<int,int> filled to every size around the
+    growth boundaries of a doubling table (the VM's map grows at 12/16 * 2^k, the generated native map at its own load
+    factor), then read back completely, probed for absent keys, half removed, read again, refilled.  Expectation: a
+    Python dict.  Added after a seeded change (rehash into the old bucket count during a resize) that only shows once a
+    map has grown past 12 entries."""
+    fns = (
+        'fn ksi(i: int) -> string {\n    return (+ "item" (int_to_string i))\n}\nshadow ksi { assert true }\n'
+        'fn kii(i: int) -> int {\n    return (- (* i 37) 1000)\n}\nshadow kii { assert true }\n'
+        'fn run_si(n: int) -> int {\n'
+        '    let m: HashMap<string, int> = (map_new)\n    let mut i: int = 0\n'
+        '    while (< i n) {\n        (map_put m (ksi i) (* i 3))\n        set i (+ i 1)\n    }\n'
+        '    (println (map_length m))\n'
+        '    let mut total: int = 0\n    let mut present: int = 0\n    set i 0\n'
+        '    while (< i (+ n 4)) {\n        if (map_has m (ksi i)) {\n            set present (+ present 1)\n            set total (+ total (map_get m (ksi i)))\n        }\n        set i (+ i 1)\n    }\n'
+        '    (println present)\n    (println total)\n'
+        '    set i 0\n    while (< i n) {\n        (map_remove m (ksi i))\n        set i (+ i 2)\n    }\n'
+        '    (println (map_length m))\n'
+        '    set total 0\n    set present 0\n    set i 0\n'
+        '    while (< i n) {\n        if (map_has m (ksi i)) {\n            set present (+ present 1)\n            set total (+ total (map_get m (ksi i)))\n        }\n        set i (+ i 1)\n    }\n'
+        '    (println present)\n    (println total)\n'
+        '    set i 0\n    while (< i n) {\n        (map_put m (ksi i) (+ i 1000))\n        set i (+ i 3)\n    }\n'
+        '    (println (map_length m))\n'
+        '    set total 0\n    set i 0\n'
+        '    while (< i n) {\n        if (map_has m (ksi i)) {\n            set total (+ total (map_get m (ksi i)))\n        }\n        set i (+ i 1)\n    }\n'
+        '    (println total)\n    return 0\n}\nshadow run_si { assert true }\n')
+    fns += fns[fns.index('fn run_si'):].replace("run_si", "run_ii").replace("HashMap<string, int>", "HashMap<int, int>").replace("(ksi i)", "(kii i)")
+
+    def model(n, key):
+        out = []
+        m = {}
+        for i in range(n):
+            m[key(i)] = i * 3
+        out.append(len(m))
+        pres = [i for i in range(n + 4) if key(i) in m]
+        out.append(len(pres))
+        out.append(sum(m[key(i)] for i in pres))
+        for i in range(0, n, 2):
+            m.pop(key(i), None)
+        out.append(len(m))
+        pres = [i for i in range(n) if key(i) in m]
+        out.append(len(pres))
+        out.append(sum(m[key(i)] for i in pres))
+        for i in range(0, n, 3):
+            m[key(i)] = i + 1000
+        out.append(len(m))
+        out.append(sum(m[key(i)] for i in range(n) if key(i) in m))
+        return out
+
+    res = []
+    for name, fn, key in (("hm_string_int", "run_si", lambda i: "item%d" % i), ("hm_int_int", "run_ii", lambda i: i * 37 - 1000)):
+        lines, exp, labels = [], [], []
+        for n in HASHMAP_SIZES:
+            lines.append('    (println "n=%d")' % n)
+            lines.append("    (%s %d)" % (fn, n))
+            exp.append("n=%d" % n)
+            for k, v in enumerate(model(n, key)):
+                exp.append(str(v))
+            labels.append(n)
+        body = "\n".join(lines)
+        if shadow_driven:
+            text = (fns + "fn drv() -> int {\n" + body + "\n    return 0\n}\n"
+                    'shadow drv {\n    (println "<<S")\n    (drv)\n    (println ">>E")\n}\n'
+                    'fn main() -> int {\n    (println "<<S")\n    (drv)\n    (println ">>E")\n    return 0\n}\nshadow main { assert true }\n')
+            res.append((name, text, "\n".join(exp) + "\n", len(exp), labels))
+        else:
+            text = fns + "fn main() -> int {\n" + body + '\n    (println "SENTINEL")\n    return 0\n}\nshadow main { assert true }\n'
+            res.append((name, text, "\n".join(exp) + "\nSENTINEL\n", len(exp), labels))
+    return res
+
+
+def hashmap_first_bad(want, got):
+    """(size label, line index, want, got) of the first differing line, or None"""
+    wl, gl = want.splitlines(), got.splitlines()
+    cur = "?"
+    for k, w in enumerate(wl):
+        if w.startswith("n="):
+            cur = w
+        g = gl[k] if k < len(gl) else "<missing>"
+        if w != g:
+            return cur, k, w, g
+    return None
